@@ -36,6 +36,7 @@ RULE = ('Generated test modules: 1-4 classes (ReferenceTestCase or plain '
 RULE += ' ' + "Also: arbitrary single-dash groups mixing v q f b with 1 0 W (tdda letters first, last or inside); unittest's -k PATTERN; --write-all anywhere among the options; modules with a load_tests hook that builds its tests by hand in nested suites; both --tagged and --istagged passed to referencepytest.tagged()."
 RULE += ' ' + 'Round 6: every third test method is wrapped by a functools.wraps decorator with @tag above it, every third with @tag beneath it.'
 RULE += ' ' + 'Round 7: one class in nine has no test methods (tagged or not); such a class holds no tagged tests.'
+RULE += ' ' + 'Round 8: the long options written after the class names.'
 ASSUMPTIONS = ['naming an individual method, tdda single-dash flags after a '
                'class name, and tagging a base class that has subclasses are '
                'not generated (left unspecified by the statement)']
